@@ -71,3 +71,27 @@ class owned_requests:
 
     def __exit__(self, *a):
         self._dc.requests = self._old
+
+
+class MultiServer:
+    """several result sets (one per site), each with its own chain of next links; requests are routed by URL"""
+
+    def __init__(self, sets, base="https://ev.caltech.edu/api/v1/"):
+        self.sets = sets  # site -> list of pages
+        self.base = base
+        self.log = []
+
+    def _payload(self, site, i):
+        pages = self.sets[site]
+        links = {"self": {"href": "self"}}
+        if i + 1 < len(pages):
+            links["next"] = {"href": "sessions/%s/page?cursor=%d" % (site, i + 1)}
+        return {"_items": copy.deepcopy(pages[i]) if pages else [], "_links": links}
+
+    def get(self, url, auth=None, **kw):
+        self.log.append(("GET", url, auth))
+        rest = url[len(self.base):] if url.startswith(self.base) else url
+        parts = rest.split("?")[0].split("/")
+        site = parts[1]
+        i = int(url.split("cursor=")[1].split("&")[0]) if "cursor=" in url else 0
+        return FakeResponse(self._payload(site, i))
